@@ -9,6 +9,8 @@
                    the HMAC computed by Python's hmac module with the hash Tsig!HashOf names
    GenuineVerifies / AlteredRejected / UnsignedReported / Family / WindowEdge / PeerReported
                    outcome of dns.message.from_wire against the Tsig!Verdict automaton
+   (FlipAccepted / FlipUnsigned are judged in the pass with C14_STRICT_TTL=0 only; the strict pass
+    re-reads the flips just for TsigTtlCovered)
    FlipCoverage / FlipAccepted / FlipUnsigned / UnsignedFlipRejected
                    every single-bit flip of a genuine message: if from_wire reports the
                    flipped message as validly signed, its RFC-authenticated view must be
@@ -19,8 +21,9 @@ VARIABLES t, l,
           csprior, cspend,    \* signer's chain state, octets
           crprior, crpend,    \* receiver's chain state, octets
           cwire,              \* message in flight, octets
+          csent,              \* the previous rendering as it left the signer, octets
           cdead               \* the real receiver refused a message
-tvars == <<vars, t, l, csprior, cspend, crprior, crpend, cwire, cdead>>
+tvars == <<vars, t, l, csprior, cspend, crprior, crpend, cwire, csent, cdead>>
 
 S == Log[t].start
 e == Ev(t)[l]
@@ -38,7 +41,7 @@ TraceInit ==
     /\ net = <<>> /\ sent = 0 /\ lastsigned = FALSE /\ mf = {} /\ cf = {} /\ skew = 0 /\ taint = FALSE
     /\ verdicts = <<>> /\ dead = FALSE
     /\ csprior = One(S.reqmac) /\ crprior = One(S.reqmac) /\ cspend = <<>> /\ crpend = <<>>
-    /\ cwire = <<>> /\ cdead = FALSE
+    /\ cwire = <<>> /\ csent = <<>> /\ cdead = FALSE
 
 StrictTtl == IOEnv.C14_STRICT_TTL = "1"
 CX(p, prior, pend) ==
@@ -60,26 +63,49 @@ SameAuth(first, w1, w2) ==
     IN p2.ok /\ p2.tsig = "last" /\ AuthView(first, p2) = AuthView(first, p1)
 SameTtl(first, w1, w2) == first => ParseMsg(w2).ttl = ParseMsg(w1).ttl
 
+(* what is required of EVERY rendering the library signs (first or repeated) *)
+SignedChecks(first, p, same) ==
+    /\ Check(t, l, "SignOk", e.res = "ok")
+    /\ Check(t, l, "SignedWellFormed",
+             /\ p.ok /\ p.tsig = "last" /\ p.class = 255 /\ p.ttl = <<0, 0, 0, 0>>
+             /\ CanonWire(p.owner) = S.keywire /\ CanonWire(p.alg) = S.algwire
+             /\ p.fudge = fudge /\ p.error = serror /\ p.origid = e.origid /\ p.other = S.other)
+    \* `same`: an unchanged message may be emitted again octet for octet without a new HMAC computation
+    /\ Check(t, l, "Composition", e.dig = Expected(p, csprior, cspend, first) \/ (same /\ e.dig = <<>> /\ e.wire = csent))
+    /\ Check(t, l, "MacValue", \/ (same /\ e.dig = <<>> /\ e.wire = csent)
+                               \/ /\ Len(e.hm) * 8 = FullBits(S.hash)
+                                  /\ p.mac = SubSeq(e.hm, 1, MacBits(S.alg) \div 8))
+    /\ csprior' = IF Multi THEN <<p.mac>> ELSE csprior
+    /\ cspend' = <<>>
+
 TSend ==
     /\ e.op = "send"
     /\ LET first == sent = 0 \/ ~Multi
            p == ParseMsg(e.wire)
        IN /\ Send(e.signed)
-          /\ Check(t, l, "SignOk", e.res = "ok")
           /\ IF e.signed
-             THEN /\ Check(t, l, "SignedWellFormed",
-                       /\ p.ok /\ p.tsig = "last" /\ p.class = 255 /\ p.ttl = <<0, 0, 0, 0>>
-                       /\ CanonWire(p.owner) = S.keywire /\ CanonWire(p.alg) = S.algwire
-                       /\ p.fudge = fudge /\ p.error = serror /\ p.origid = e.origid /\ p.other = S.other)
-                  /\ Check(t, l, "Composition", e.dig = Expected(p, csprior, cspend, first))
-                  /\ Check(t, l, "MacValue", /\ Len(e.hm) * 8 = FullBits(S.hash)
-                                             /\ p.mac = SubSeq(e.hm, 1, MacBits(S.alg) \div 8))
-                  /\ csprior' = IF Multi THEN <<p.mac>> ELSE csprior
-                  /\ cspend' = <<>>
-             ELSE /\ Check(t, l, "UnsignedPlain", p.ok /\ p.tsig = "none")
+             THEN SignedChecks(first, p, FALSE)
+             ELSE /\ Check(t, l, "SignOk", e.res = "ok")
+                  /\ Check(t, l, "UnsignedPlain", p.ok /\ p.tsig = "none")
                   /\ cspend' = Append(cspend, e.wire)
                   /\ csprior' = csprior
-    /\ cwire' = e.wire
+    /\ cwire' = e.wire /\ csent' = e.wire
+    /\ UNCHANGED <<crprior, crpend, cdead>> /\ Adv
+
+(* the same Message object rendered again (Tsig!Resign) *)
+TResign ==
+    /\ e.op = "resign"
+    /\ LET first == ~Multi
+           p == ParseMsg(e.wire)
+           q == ParseMsg(csent)
+       IN /\ Resign(e.mod)
+          /\ SignedChecks(first, p, e.mod = "none" /\ ~Multi)
+          /\ Check(t, l, "EnvResignModified",
+                   (p.ok /\ p.tsig = "last" /\ q.ok /\ q.tsig = "last") =>
+                      /\ e.mod = "id" => (SubSeq(e.wire, 1, 2) # SubSeq(csent, 1, 2) /\ p.origid = q.origid)
+                      /\ e.mod = "head" => p.head # q.head
+                      /\ e.mod = "body" => p.body # q.body)
+    /\ cwire' = e.wire /\ csent' = e.wire
     /\ UNCHANGED <<crprior, crpend, cdead>> /\ Adv
 
 (* faults: the abstract action, and the driver's concretisation must really be one *)
@@ -87,27 +113,27 @@ TTamper ==
     /\ e.op = "tamper" /\ Tamper(e.region)
     /\ Check(t, l, "EnvTamperAltersAuth",
              net[1].pos = "none" \/ ~SameAuth(sent = 1 \/ ~Multi, cwire, e.wire) \/ e.region \in {"tsig.ttl", "tsig.other"})
-    /\ cwire' = e.wire /\ UNCHANGED <<csprior, cspend, crprior, crpend, cdead>> /\ Adv
+    /\ cwire' = e.wire /\ UNCHANGED <<csprior, cspend, crprior, crpend, csent, cdead>> /\ Adv
 TBenign ==
     /\ e.op = "benign" /\ Benign(e.what)
     /\ Check(t, l, "EnvBenignKeepsAuth", (ParseMsg(cwire).ok /\ ParseMsg(cwire).tsig = "last") => (SameAuth(TRUE, cwire, e.wire) /\ e.wire # cwire))
-    /\ cwire' = e.wire /\ UNCHANGED <<csprior, cspend, crprior, crpend, cdead>> /\ Adv
+    /\ cwire' = e.wire /\ UNCHANGED <<csprior, cspend, crprior, crpend, csent, cdead>> /\ Adv
 TMove ==
     /\ e.op = "move" /\ MoveTsig
     /\ Check(t, l, "EnvMoved", (ParseMsg(cwire).ok /\ ParseMsg(cwire).tsig = "last") => (ParseMsg(e.wire).ok /\ ParseMsg(e.wire).tsig = "misplaced"))
-    /\ cwire' = e.wire /\ UNCHANGED <<csprior, cspend, crprior, crpend, cdead>> /\ Adv
+    /\ cwire' = e.wire /\ UNCHANGED <<csprior, cspend, crprior, crpend, csent, cdead>> /\ Adv
 TStrip ==
     /\ e.op = "strip" /\ StripTsig
     /\ Check(t, l, "EnvStripped", (ParseMsg(cwire).ok /\ ParseMsg(cwire).tsig = "last") => (ParseMsg(e.wire).ok /\ ParseMsg(e.wire).tsig = "none"))
-    /\ cwire' = e.wire /\ UNCHANGED <<csprior, cspend, crprior, crpend, cdead>> /\ Adv
+    /\ cwire' = e.wire /\ UNCHANGED <<csprior, cspend, crprior, crpend, csent, cdead>> /\ Adv
 TConfig ==
     /\ e.op = "cfault" /\ ConfigFault(e.what)
     /\ crprior' = IF e.what \in {"wrongreqmac", "noreqmac"} THEN One(e.rmac) ELSE crprior
     /\ Check(t, l, "EnvReqMacDiffers", e.what \in {"wrongreqmac", "noreqmac"} => One(e.rmac) # crprior)
-    /\ UNCHANGED <<csprior, cspend, crpend, cwire, cdead>> /\ Adv
+    /\ UNCHANGED <<csprior, cspend, crpend, cwire, csent, cdead>> /\ Adv
 TSkew ==
     /\ e.op = "skew" /\ ClockSkew(e.d) /\ skew' = e.d
-    /\ UNCHANGED <<csprior, cspend, crprior, crpend, cwire, cdead>> /\ Adv
+    /\ UNCHANGED <<csprior, cspend, crprior, crpend, cwire, csent, cdead>> /\ Adv
 
 ClassLevel == {{"move"}, {"tsig.class"}, {"tsig.error"}, {"wrongkey"}, {"wrongname"}, {"wrongalg"},
                {"wrongreqmac"}, {"noreqmac"}}
@@ -136,9 +162,9 @@ TDeliver ==
                /\ Check(t, l, "VerifierMac", (e.out = "ok") => (/\ e.dig # <<>> /\ p.mac = SubSeq(e.hm, 1, MacBits(S.alg) \div 8)))
                /\ IF r.signed /\ genuine /\ Abs(r.skew) <= fudge /\ Log[t].flips
                   THEN /\ Check(t, l, "FlipCoverage", e.nflips = 8 * Len(cwire))
-                       /\ Check(t, l, "FlipAccepted", \A i \in 1..Len(e.okbits) : SameAuth(rfirst, cwire, FlipBit(cwire, e.okbits[i])))
+                       /\ Check(t, l, "FlipAccepted", StrictTtl \/ \A i \in 1..Len(e.okbits) : SameAuth(rfirst, cwire, FlipBit(cwire, e.okbits[i])))
                        /\ Check(t, l, "TsigTtlCovered", StrictTtl => \A i \in 1..Len(e.okbits) : SameTtl(rfirst, cwire, FlipBit(cwire, e.okbits[i])))
-                       /\ Check(t, l, "FlipUnsigned", \A i \in 1..Len(e.unsbits) : LET q == ParseMsg(FlipBit(cwire, e.unsbits[i])) IN q.ok /\ q.tsig = "none")
+                       /\ Check(t, l, "FlipUnsigned", StrictTtl \/ \A i \in 1..Len(e.unsbits) : LET q == ParseMsg(FlipBit(cwire, e.unsbits[i])) IN q.ok /\ q.tsig = "none")
                   ELSE TRUE
                /\ IF ~r.signed /\ genuine /\ Log[t].flips /\ e.out = "unsigned"
                   THEN /\ Check(t, l, "FlipCoverage", e.nflips = 8 * Len(cwire))
@@ -149,11 +175,11 @@ TDeliver ==
                             ELSE IF e.out = "unsigned" /\ Multi /\ raccepted > 0 THEN Append(crpend, cwire)
                             ELSE crpend
                /\ cdead' = (e.out \notin {"ok", "unsigned"})
-    /\ UNCHANGED <<csprior, cspend, cwire>> /\ Adv
+    /\ UNCHANGED <<csprior, cspend, cwire, csent>> /\ Adv
 
 TraceNext ==
     /\ l <= Len(Ev(t))
-    /\ \/ TSend \/ TTamper \/ TBenign \/ TMove \/ TStrip \/ TConfig \/ TSkew \/ TDeliver
+    /\ \/ TSend \/ TResign \/ TTamper \/ TBenign \/ TMove \/ TStrip \/ TConfig \/ TSkew \/ TDeliver
 
 Accepted == Accepting(t, l)
 =============================================================================
